@@ -13,13 +13,16 @@ from . import runner
 VERIF = os.path.dirname(os.path.dirname(os.path.abspath(__file__)))
 
 
-def digests(pid, tier, base_seed, start, count):
+def digests(pid, tier, base_seed, start, count, reverse=False):
     from .cli import load_check
     check = load_check(pid)
     if hasattr(check, "prepare"):
         check.prepare(tier)
     out = []
-    for idx in range(start, start + count):
+    order = range(start, start + count)
+    if reverse:
+        order = reversed(order)
+    for idx in order:
         r = runner.one_run(check, base_seed, idx, tier)
         out.append((idx, r["digest"], sorted(runner.vclass(v) for v in r.get("violations", ()))))
     return out
@@ -56,7 +59,14 @@ def main(cmd, argv):
             t0 = time.time()
             a = digests(pid, "quick", seed, 0, n)
             b = digests(pid, "quick", seed, 0, n)
-            same_proc = a == b
+            # a run must not depend on which runs happened before it in the same OS process
+            c = sorted(digests(pid, "quick", seed, 0, n, reverse=True))
+            same_proc = a == b and c == sorted(a)
+            if c != sorted(a):
+                for x, y in zip(sorted(a), c):
+                    if tuple(x) != tuple(y):
+                        print("  order-dependent run:", x, y)
+                        break
             fresh = []
             for hs in ("0", "7", "random"):
                 env = dict(os.environ, PYTHONHASHSEED=hs, PYTHONDONTWRITEBYTECODE="1")
